@@ -400,6 +400,10 @@ def main():
             sys.exit(2)
         tier = os.environ.get('VERIF_TIER', tier) if False else tier
         ctx = Ctx(pid, tier, seed)
+        # replay files of earlier runs of this tier would otherwise sit next to the new ones
+        import glob as _glob
+        for f in _glob.glob(os.path.join(ctx.out, 'replay_%s_*.json' % tier)):
+            os.remove(f)
         ctx.build()
         names = crate_env_names()
         ctx.notes.append('environment: the crate reads no environment variable (scan of src/), so every result is a function of the call arguments and the CPU set only' if not names
